@@ -161,15 +161,15 @@ theorem static_idempotent (s : Static.St) (t d : Rat) (hd : 0 < d) :
     (s.read t d).read t d = s.read t d := by
   have h0 : ¬ d ≤ t - t := by
     rw [Rat.sub_self]; exact Rat.not_le.mpr hd
-  have key : ∀ (i : Nat), (({ idx := i, start := some t } : Static.St).read t d) = { idx := i, start := some t } := by
-    intro i; simp [Static.St.read, h0]
+  have key : ∀ (i c : Nat), (({ idx := i, cur := c, start := some t } : Static.St).read t d) = { idx := i, cur := c, start := some t } := by
+    intro i c; simp [Static.St.read, h0]
   cases hs : s.start with
   | none =>
-    have : s.read t d = { idx := s.idx + 1, start := some t } := by simp [Static.St.read, hs]
+    have : s.read t d = { idx := s.idx + 1, cur := s.idx, start := some t } := by simp [Static.St.read, hs]
     rw [this, key]
   | some st =>
     by_cases hh : d ≤ t - st
-    · have : s.read t d = { idx := s.idx + 1, start := some t } := by simp [Static.St.read, hs, hh]
+    · have : s.read t d = { idx := s.idx + 1, cur := s.idx, start := some t } := by simp [Static.St.read, hs, hh]
       rw [this, key]
     · have : s.read t d = s := by simp [Static.St.read, hs, hh]
       rw [this, this]
@@ -201,6 +201,37 @@ theorem static_keeps (s : Static.St) (t d st : Rat) (hs : s.start = some st) (h 
   unfold Static.St.read; simp [hs, h]
 
 open IsobarV.Static in
+/-- **A rewind (a constructor built around the shared pattern, `PReset`, `all()`, `Timeline.reset`) does not
+    cut the held value short**: a read before the duration has elapsed returns the very element that was
+    being held, at the same selection time — only the element that FOLLOWS starts over (index 0). -/
+theorem static_rewind_keeps_hold (s : Static.St) (t d st : Rat) (hs : s.start = some st) (h : ¬ d ≤ t - st) :
+    (s.rewind.read t d).held = s.held ∧ (s.rewind.read t d).start = s.start ∧ (s.rewind.read t d).idx = 0 := by
+  have hs' : s.rewind.start = some st := hs
+  rw [static_keeps s.rewind t d st hs' h]
+  exact ⟨rfl, rfl, rfl⟩
+
+open IsobarV.Static in
+/-- … and once it has elapsed the next read serves the inner pattern's first element. -/
+theorem static_rewind_restarts (s : Static.St) (t d st : Rat) (hs : s.start = some st) (h : d ≤ t - st) :
+    (s.rewind.read t d).held = 0 ∧ (s.rewind.read t d).start = some t := by
+  simp [Static.St.read, hs, h, Static.St.held, Static.St.rewind]
+
+open IsobarV.Static in
+/-- What a read returns is the element selected by the last change: without a rewind, element `idx - 1`. -/
+theorem static_read_held (s : Static.St) (t d : Rat) (h : s.idx = s.cur + 1 ∨ s.start = none) :
+    (s.read t d).idx = (s.read t d).held + 1 := by
+  unfold Static.St.read Static.St.held
+  cases hs : s.start with
+  | none => rfl
+  | some st =>
+    simp only []
+    split
+    · rfl
+    · rcases h with h | h
+      · exact h
+      · rw [hs] at h; cases h
+
+open IsobarV.Static in
 /-- **A globals read returns the latest value set, or the given default.** -/
 theorem globals_get_set (m : Static.GMap) (k k' : String) (v dflt : Int) :
     gget (gset m k v) k dflt = v ∧ (k' ≠ k → gget (gset m k v) k' dflt = gget m k' dflt) ∧ gget [] k dflt = dflt := by
@@ -209,5 +240,7 @@ theorem globals_get_set (m : Static.GMap) (k k' : String) (v dflt : Int) :
   simp [gget, gset, this]
 
 example : (Static.reads 2 {} [0, 1, 1, 2, 3, 4, 9]).idx = 4 := by decide +kernel
+example : ((Static.reads 2 {} [0, 1, 2, 3]).rewind.read (7/2) 2).held = 1 ∧
+          (((Static.reads 2 {} [0, 1, 2, 3]).rewind.read (7/2) 2).read 4 2).held = 0 := by decide +kernel
 
 end IsobarV.C07
